@@ -14,13 +14,20 @@ ASSUMPTIONS = [
     "non-root block is finalized",
 ]
 META = {
-    "text": "see props/C07.py: Coq theorems = the flag part of Inv_tree (proper tree, heights, failed parent => FAILED_CHILD, "
-            "live blocks >= VALID_TREE) for init and for inv/reval/rm/setState steps of both trees, lifted over op lists "
-            "(_partial: tips/active-chain/connected conjuncts and hdr/body/rmpl steps are not proved); the full invariant list "
-            "of harness/invariants.hpp (S1-S3 V1-V3 F1 T1 C1 C2 P1 P2 R1) is evaluated on the implementation after EVERY step of "
-            "general histories with payloads and of the ALT/PoW model histories, which are also compared with the model per step",
-    "note": "Trusted: Coq kernel, extraction, OCaml driver, C++ harness and invariant checker (public getters only)",
-    "technique": "Coq proof (invariant preserved by steps) + invariant checker after every step + differential correspondence",
+    "text": "Coq theorems on coq/Tree/TreeDefs.v (ALT tree with empty payloads, PoW tree): Inv_flags (proper tree, heights follow "
+            "parents, failed parent => FAILED_CHILD hence every descendant of a failed block is failed, live blocks >= VALID_TREE) "
+            "and a non-failed best-chain tip hold initially and are preserved by EVERY operation of both trees (hdr/body/set/inv/"
+            "reval/rm/rmpl), lifted over op lists; hence the best chain runs through non-failed blocks only. The tips conjunct "
+            "(tips = usable blocks without usable child) is proved for set/inv/reval/rm of both trees and hdr(new block)/body/rmpl of "
+            "the ALT tree. _partial, exact missing pieces: tips conjunct for re-adding a REMOVED block and for the PoW "
+            "acceptBlockHeader (both need the model invariant S3 'a removed block is at VALID_UNKNOWN with only removed children'); "
+            "the conjuncts ACTIVE <=> on the best chain / appliedBlockCount = |chain| / connected => ancestors connected. The full "
+            "invariant list of harness/invariants.hpp (S1-S3 V1-V3 F1 T1 C1 C2 P1 P2 R1; ALT, VBK and BTC trees) is evaluated on the "
+            "implementation after EVERY step of general honest histories with payloads and of the ALT/PoW model histories, which are "
+            "also compared with the model per step",
+    "note": "Trusted: Coq kernel, extraction, OCaml driver, C++ harness and invariant checker (public getters only). F1 is one-"
+            "directional: removeSubtree keeps FAILED_CHILD of descendants of a block whose FAILED_POP it drops (stale flag)",
+    "technique": "Coq proof (invariant preserved by every step) + invariant checker after every step + differential correspondence",
 }
 
 
